@@ -59,8 +59,8 @@ def parseOp (j : Json) : R Op := do
   let t ← jStr (← fld j "t")
   match t with
   | "construct" =>
-    return .construct (← jNat (← fld j "slot")) (← jKind (← fld j "kind")) (← jNat (← fld j "nv"))
-      (← jOptNat j "nh") (← jOptNat j "na") (← jUD j "ud") (← jNatListList (← fld j "rand"))
+    return ctorOp (← jNat (← fld j "slot")) (← jKind (← fld j "kind")) (← jNat (← fld j "nv"))
+      (← jOptNat j "nh") (← jOptNat j "na") (← jUD j "ud") none (← jNatListList (← fld j "rand"))
   | "mkModule" =>
     return .mkModule (← jNat (← fld j "mslot")) (← jNetKind (← fld j "k")) (← jNat (← fld j "nv"))
       (← jOptNat j "nh") (← jOptNat j "na") (match fldOpt j "zw" with | some (.bool b) => b | _ => false)
@@ -69,7 +69,11 @@ def parseOp (j : Json) : R Op := do
     return .initModule (← jNat (← fld j "mslot")) (match fldOpt j "zw" with | some (.bool b) => some b | _ => none)
       (← jNatList (← fld j "rand"))
   | "constructFrom" =>
-    return .constructFrom (← jNat (← fld j "slot")) (← jKind (← fld j "kind")) (← jNat (← fld j "mslot")) (← jUD j "ud")
+    -- the whole constructor call: the sizes the caller passes alongside `module=` (fields nv / nh / na, all optional) go through
+    -- the model's `ctorOp`, which selects the module branch
+    let nv ← (match fldOpt j "nv" with | none => pure 7 | some v => jNat v)
+    return ctorOp (← jNat (← fld j "slot")) (← jKind (← fld j "kind")) nv (← jOptNat j "nh") (← jOptNat j "na") (← jUD j "ud")
+      (some (← jNat (← fld j "mslot"))) []
   | "write" => return .write (← jNat (← fld j "slot")) (← jStr (← fld j "net")) (← jNatList (← fld j "toks"))
   | "writeModule" => return .writeModule (← jNat (← fld j "mslot")) (← jNatList (← fld j "toks"))
   | "train" => return .train (← jNat (← fld j "slot")) (← jBool (← fld j "bases")) (← jNatListList (← fld j "toks"))
